@@ -9,12 +9,11 @@ C15 — JSON serialization round-trips every serializable parameter value.
    standard JSON, and the same holds per parameter for
    `serialize_value`/`deserialize_value` and under `subset=`."
 
-The statement at full strength (`C15_full`) is false of the code: `C15_full_refuted`
-(a tuple nested in a Tuple value comes back as a list) and `year_below_1000_not_restored`
-(a Date in the year 999).  What is proved is `roundtrip_partial` with the two extra
-hypotheses spelled out: years have four digits, and the elements of untyped
-containers are JSON-native (no nested tuple, no non-string key; a
-CalendarDateRange holds dates, not datetimes).
+The statement at full strength (`C15_full`) is false of the code, inherently so:
+`C15_full_refuted` (a tuple nested in a Tuple value comes back as a list — JSON has no
+tuple).  What is proved is `roundtrip_partial` with the one extra hypothesis spelled
+out: the elements of untyped containers are JSON-native (no nested tuple, no
+non-string key).  Years below 1000 round-trip since `_strftime` pads the year.
 
 Equality is equality of `PyVal`, in which the exact Python type is a constructor
 (int vs float vs bool, list vs tuple, date vs datetime, None).
@@ -33,23 +32,8 @@ def inStatement (c : PCfg) (v : PyVal) : Bool :=
   | .date, .date .. => false
   | _, _ => true
 
-def fourDigitYear : PyVal → Bool
-  | .date y _ _ => decide (1000 ≤ y)
-  | .datetime y _ _ _ _ _ _ => decide (1000 ≤ y)
-  | _ => true
-
-/-- extra hypothesis 1: every date in the value has a four-digit year -/
-def yearsFourDigits : PyVal → Bool
-  | .tuple l => l.all fourDigitYear
-  | v => fourDigitYear v
-
-def isDateOnly : PyVal → Bool
-  | .date .. => true
-  | _ => false
-
-/-- extra hypothesis 2: what JSON can carry.  Elements of an untyped Tuple / List /
-Dict / Selector value are JSON-native (no tuple, no date, string keys); the elements of
-a CalendarDateRange are dates. -/
+/-- the extra hypothesis: what JSON can carry.  Elements of an untyped Tuple / List /
+Dict / Selector value are JSON-native (no tuple, no date, string keys). -/
 def nativeElems (c : PCfg) (v : PyVal) : Bool :=
   match c, v with
   | .tuple _, .tuple l => PyVal.jsonNativeL l
@@ -58,7 +42,6 @@ def nativeElems (c : PCfg) (v : PyVal) : Bool :=
   | .selector _, v => v.jsonNative
   | .listSelector _, v => v.jsonNative
   | .classSelector _, v => v.jsonNative
-  | .calendarDateRange, .tuple l => l.all isDateOnly
   | _, _ => true
 
 /-- one parameter round-trips: `deserialize_value(serialize_value())` restores value and
@@ -87,18 +70,9 @@ theorem C15_full_refuted : ¬ C15_full := by
 def witnessParam : Param :=
   { name := "d", cfg := .date, allowNone := .undef, default := some .none, doc := none, label := "D" }
 
-/-- a second, independent refutation (a defect of the code, not of JSON): `Date` holding
-`datetime(999, 1, 1)` serialises to `'999-01-01T00:00:00.000000'` (unpadded `%Y`), which
-`strptime` rejects with ValueError. -/
-theorem year_below_1000_not_restored : ¬ RoundTrips witnessParam (.datetime 999 1 1 0 0 0 0) := by
-  intro ⟨j, h1, _, h3⟩
-  simp [serializeValue, witnessParam, PCfg.serialize, strftimeDateTime, dumps, fmtDateTime] at h1
-  subst h1
-  simp [deserializeValue, witnessParam, loads, PCfg.deserialize, isNullish, strptimeDateTime, yearDigits] at h3
-
-/-- the same parameter one year later does round-trip: the failure hinges on the year width -/
-example : RoundTrips witnessParam (.datetime 1000 1 1 0 0 0 0) :=
-  ⟨.str (fmtDateTime 1000 1 1 0 0 0 0), rfl, rfl, rfl⟩
+/-- years below 1000 round-trip (the year is padded to four digits) -/
+example : RoundTrips witnessParam (.datetime 999 1 1 0 0 0 0) :=
+  ⟨.str (fmtDateTime 999 1 1 0 0 0 0), rfl, rfl, rfl⟩
 
 /-- and the Tuple witness with a list inside instead of a tuple does round-trip -/
 example : RoundTrips witnessTuple (.tuple [.list [.int 1]]) :=
@@ -128,11 +102,11 @@ theorem rt_none {p : Param} (hs : p.cfg.serialize .none = .ok .none)
   ⟨.null, by simp [serializeValue, hs, dumps], rfl, by simp [deserializeValue, loads, hd]⟩
 
 /-- **C15 (per parameter), provable part.**  A valid, finite value inside the statement whose
-dates have four-digit years and whose untyped containers hold JSON-native elements is restored
+untyped containers hold JSON-native elements is restored
 by `deserialize_value(serialize_value())` with equal value and equal Python type, and the text
 is standard JSON.  All 17 parameter types, `None` included. -/
 theorem roundtrip_partial (p : Param) (v : PyVal) (hv : p.validB v = true) (hf : v.finite = true)
-    (hs : inStatement p.cfg v = true) (hy : yearsFourDigits v = true) (hn : nativeElems p.cfg v = true) :
+    (hs : inStatement p.cfg v = true) (hn : nativeElems p.cfg v = true) :
     RoundTrips p v := by
   obtain ⟨name, cfg, an, dflt, doc, label⟩ := p
   cases cfg with
@@ -180,10 +154,9 @@ theorem roundtrip_partial (p : Param) (v : PyVal) (hv : p.validB v = true) (hf :
     | none => exact rt_none rfl rfl
     | datetime y m d h mi s us =>
       simp [Param.validB, PCfg.accepts, wfDate] at hv
-      simp [yearsFourDigits, fourDigitYear] at hy
       refine ⟨.str (fmtDateTime y m d h mi s us), rfl, rfl, ?_⟩
       simp [deserializeValue, loads, PCfg.deserialize, isNullish, fmtDateTime, strptimeDateTime,
-        yearDigits_eq_four hy (by omega)]
+        yearDigits_eq_four (y := y) (by omega)]
     | date y m d => simp [inStatement] at hs
     | _ => simp [Param.validB, PCfg.accepts] at hv
   | calendarDate =>
@@ -191,10 +164,9 @@ theorem roundtrip_partial (p : Param) (v : PyVal) (hv : p.validB v = true) (hf :
     | none => exact rt_none rfl rfl
     | date y m d =>
       simp [Param.validB, PCfg.accepts, wfDate] at hv
-      simp [yearsFourDigits, fourDigitYear] at hy
       refine ⟨.str (fmtDate y m d), rfl, rfl, ?_⟩
       simp [deserializeValue, loads, PCfg.deserialize, isNullish, fmtDate, strptimeDate,
-        yearDigits_eq_four hy (by omega)]
+        yearDigits_eq_four (y := y) (by omega)]
     | _ => simp [Param.validB, PCfg.accepts] at hv
   | dateRange =>
     cases v with
@@ -205,34 +177,31 @@ theorem roundtrip_partial (p : Param) (v : PyVal) (hv : p.validB v = true) (hf :
       cases x <;> cases y <;> simp [dateLe] at hle
       · rename_i y1 m1 d1 y2 m2 d2
         simp [wfDate] at hx hy'
-        simp [yearsFourDigits, fourDigitYear] at hy
         refine ⟨.arr [.str (fmtDate y1 m1 d1), .str (fmtDate y2 m2 d2)], rfl, rfl, ?_⟩
         simp [deserializeValue, loads, loadsL, PCfg.deserialize, isNullish, iterOf, mapE, dateRangeItemBack,
           pyLen, JStr.length, Stamp.length, fmtDate, strptimeDate,
-          yearDigits_eq_four hy.1 (by omega), yearDigits_eq_four hy.2 (by omega)]
+          yearDigits_eq_four (y := y1) (by omega), yearDigits_eq_four (y := y2) (by omega)]
       · rename_i y1 m1 d1 h1 mi1 s1 us1 y2 m2 d2 h2 mi2 s2 us2
         simp [wfDate] at hx hy'
-        simp [yearsFourDigits, fourDigitYear] at hy
         refine ⟨.arr [.str (fmtDateTime y1 m1 d1 h1 mi1 s1 us1), .str (fmtDateTime y2 m2 d2 h2 mi2 s2 us2)],
           rfl, rfl, ?_⟩
         simp [deserializeValue, loads, loadsL, PCfg.deserialize, isNullish, iterOf, mapE, dateRangeItemBack,
           pyLen, JStr.length, Stamp.length, fmtDateTime, strptimeDateTime,
-          yearDigits_eq_four hy.1 (by omega), yearDigits_eq_four hy.2 (by omega)]
+          yearDigits_eq_four (y := y1) (by omega), yearDigits_eq_four (y := y2) (by omega)]
     | _ => simp [Param.validB, PCfg.accepts] at hv
   | calendarDateRange =>
     cases v with
     | none => exact rt_none rfl rfl
     | tuple l =>
       rcases l with _ | ⟨x, _ | ⟨y, _ | ⟨z, r⟩⟩⟩ <;> simp [Param.validB, PCfg.accepts] at hv
-      obtain ⟨⟨⟨_, hx⟩, hy'⟩, hle⟩ := hv
-      cases x <;> cases y <;> simp [dateLe] at hle
-      · rename_i y1 m1 d1 y2 m2 d2
-        simp [wfDate] at hx hy'
-        simp [yearsFourDigits, fourDigitYear] at hy
-        refine ⟨.arr [.str (fmtDate y1 m1 d1), .str (fmtDate y2 m2 d2)], rfl, rfl, ?_⟩
-        simp [deserializeValue, loads, loadsL, PCfg.deserialize, isNullish, iterOf, mapE, fmtDate, strptimeDate,
-          yearDigits_eq_four hy.1 (by omega), yearDigits_eq_four hy.2 (by omega)]
-      · simp [nativeElems, isDateOnly] at hn
+      obtain ⟨⟨⟨⟨⟨hlen, hdx⟩, hdy⟩, hx⟩, hy'⟩, hle⟩ := hv
+      cases x <;> simp [isDateOnly] at hdx
+      cases y <;> simp [isDateOnly] at hdy
+      rename_i y1 m1 d1 y2 m2 d2
+      simp [wfDate] at hx hy'
+      refine ⟨.arr [.str (fmtDate y1 m1 d1), .str (fmtDate y2 m2 d2)], rfl, rfl, ?_⟩
+      simp [deserializeValue, loads, loadsL, PCfg.deserialize, isNullish, iterOf, mapE, fmtDate, strptimeDate,
+        yearDigits_eq_four (y := y1) (by omega), yearDigits_eq_four (y := y2) (by omega)]
     | _ => simp [Param.validB, PCfg.accepts] at hv
 
 /-- **C15: the text is standard JSON.**  A finite value never produces `NaN`/`Infinity` tokens,
@@ -244,7 +213,7 @@ theorem text_is_standard_json (p : Param) (v : PyVal) (j : Json) (hf : v.finite 
 /-- the hypotheses of `roundtrip_partial`, for one entry of a state -/
 def EntryOK (pv : Param × PyVal) : Prop :=
   pv.1.validB pv.2 = true ∧ pv.2.finite = true ∧ inStatement pv.1.cfg pv.2 = true ∧
-  yearsFourDigits pv.2 = true ∧ nativeElems pv.1.cfg pv.2 = true
+  nativeElems pv.1.cfg pv.2 = true
 
 /-- **C15 (object level, and under `subset=`).**  For a class with distinct parameter names and a
 state all of whose entries satisfy the hypotheses above, `serialize_parameters(subset)` succeeds,
@@ -260,8 +229,8 @@ theorem roundtrip_parameters (st : List (Param × PyVal)) (subset : Option (List
   roundtrip_fields (st.map (·.1)) subset st
     (fun pv hpv => findParam_of_nodup _ hnd pv.1 (List.mem_map.2 ⟨pv, hpv, rfl⟩))
     (fun pv hpv => by
-      obtain ⟨h1, h2, h3, h4, h5⟩ := h pv hpv
-      exact roundtrip_partial pv.1 pv.2 h1 h2 h3 h4 h5)
+      obtain ⟨h1, h2, h3, h4⟩ := h pv hpv
+      exact roundtrip_partial pv.1 pv.2 h1 h2 h3 h4)
 
 /-- the deserialized arguments are accepted by the constructor: each is the valid value it was -/
 theorem rebuilt_arguments_valid (st : List (Param × PyVal)) (subset : Option (List String))
@@ -279,12 +248,12 @@ def exRange : Param :=
 def exState : List (Param × PyVal) :=
   [(exTuple, .tuple [.int 1, .list [.str (.plain "a"), .none]]),
    (witnessParam, .datetime 2024 2 29 12 0 0 1),
-   (exRange, .tuple [.date 2020 1 1, .date 2021 12 31])]
+   (exRange, .tuple [.date 999 1 1, .date 2021 12 31])]
 
 example : ∀ pv ∈ exState, EntryOK pv := by
   intro pv h
   simp only [exState, List.mem_cons, List.not_mem_nil, or_false] at h
-  rcases h with h | h | h <;> subst h <;> exact ⟨by decide, by decide, by decide, by decide, by decide⟩
+  rcases h with h | h | h <;> subst h <;> exact ⟨by decide, by decide, by decide, by decide⟩
 
 example : (((exState.map (·.1)).map (·.name)).Nodup) := by decide
 
@@ -292,7 +261,7 @@ example : (((exState.map (·.1)).map (·.name)).Nodup) := by decide
 example : ∃ fields, serializeParameters exState (some ["r", "t"]) = .ok fields ∧
     deserializeFields (exState.map (·.1)) (some ["r", "t"]) fields =
       .ok [("t", .tuple [.int 1, .list [.str (.plain "a"), .none]]),
-           ("r", .tuple [.date 2020 1 1, .date 2021 12 31])] :=
+           ("r", .tuple [.date 999 1 1, .date 2021 12 31])] :=
   ⟨_, rfl, rfl⟩
 
 end ParamVerif.Json
